@@ -16,6 +16,37 @@ pub static mut ROTATION: usize = 0;
 /// only the key index is ever iterated mutably) and a `get` that hits it reports "would block" instead of an observation.
 pub static mut LOCKED_BUCKET: usize = 0;
 pub static mut WOULD_BLOCK: bool = false;
+/// The dual (C04, reader preempted): while `TRACK_READ` is set, a `Ref` returned by `get` on the key
+/// index marks its bucket (index + 1) as READ-locked until it is dropped - the real guard holds the
+/// shard's read lock.  A writer-side `iter_mut` / `insert` / `remove` / `get_mut` that reaches that
+/// bucket would block in the real DashMap until the reader is done, so the interleaving the
+/// sequentialised harness is executing cannot happen: `INFEASIBLE` is set and the harness discards
+/// the run.  Only the key index is tracked (told apart from the statistics map, whose keys are
+/// `u64`, by the size of the key type - a compile-time constant, unlike a map address).
+pub static mut TRACK_READ: bool = false;
+pub static mut READ_LOCKED: usize = 0;
+pub static mut INFEASIBLE: bool = false;
+#[inline(always)]
+fn tracked<K>() -> bool {
+    std::mem::size_of::<K>() != 8
+}
+#[inline(always)]
+fn writer_touches<K>(idx: usize) {
+    unsafe {
+        if tracked::<K>() && READ_LOCKED == idx + 1 {
+            INFEASIBLE = true;
+        }
+    }
+}
+impl<'a, K, V> Drop for Ref<'a, K, V> {
+    fn drop(&mut self) {
+        unsafe {
+            if TRACK_READ && tracked::<K>() {
+                READ_LOCKED = 0;
+            }
+        }
+    }
+}
 
 pub struct Inner<K, V> {
     s: [Option<(K, V)>; MCAP],
@@ -186,6 +217,7 @@ impl<'a, K, V> Iterator for IterMut<'a, K, V> {
                 // bucket index + 1 (an integer, not an address: a pointer-to-integer comparison is
                 // not constant-folded by CBMC and would make every later `get` a symbolic branch)
                 unsafe { LOCKED_BUCKET = j + 1 };
+                writer_touches::<K>(j);
                 return Some(RefMutMulti { p, _m: PhantomData });
             }
         }
@@ -214,6 +246,7 @@ impl<K: PartialEq, V> DashMap<K, V> {
         let idx = self.find(&k);
         let v = unsafe { &mut *self.items.get() };
         if idx < MCAP {
+            writer_touches::<K>(idx);
             return Some(std::mem::replace(&mut v.s[idx].as_mut().unwrap().1, val));
         }
         let mut i = 0;
@@ -229,6 +262,7 @@ impl<K: PartialEq, V> DashMap<K, V> {
     pub fn remove(&self, k: &K) -> Option<(K, V)> {
         let idx = self.find(k);
         if idx < MCAP {
+            writer_touches::<K>(idx);
             let v = unsafe { &mut *self.items.get() };
             v.s[idx].take()
         } else {
@@ -261,6 +295,11 @@ impl<K: PartialEq, V> DashMap<K, V> {
                 // the real call would block here until the iter_mut guard is released
                 unsafe { WOULD_BLOCK = true };
                 return None;
+            }
+            unsafe {
+                if TRACK_READ && tracked::<K>() {
+                    READ_LOCKED = idx + 1;
+                }
             }
             Some(Ref { p, _m: PhantomData })
         } else {
